@@ -144,6 +144,67 @@ MUTATIONS=(
 "legal-valid-before-make|FAIL|$BOARD|/pub fn is_move_legal(&mut self, mv: Move) -> bool/,/^    }/{/        self.make(mv);/{h;d};/        let result = self.is_valid();/{G}}"
 "legal-negated|FAIL|$BOARD|/pub fn is_move_legal(&mut self, mv: Move) -> bool/,/^    }/s/        result$/        !result/"
 "legal-HARMLESS-rename-local|PASS|$BOARD|/pub fn is_move_legal(&mut self, mv: Move) -> bool/,/^    }/s/result/ok/g"
+# ---- move constructor `make_move` of the generator (C01 / C02; module MoveCtor, Props/Translated/GenerateCtor.lean)
+"ctor-ep-victim-offset-16|FAIL|$BOARD|/let en_passant_offset = if is_en_passant_attack_mask == 0 {/,/};/s/^            8$/            16/"
+"ctor-dcastle-56-to-48|FAIL|$BOARD|s/            d_castle = 56;/            d_castle = 48;/"
+"ctor-halfmove-reset-or-to-and|FAIL|$BOARD|s/if piece_active == PAWN || piece_attacked != NO_PIECE {/if piece_active == PAWN \&\& piece_attacked != NO_PIECE {/"
+"ctor-self-lost-king-tests-a1|FAIL|$BOARD|s/if active.king_side_castle \&\& (source_square_shift == (H1 - d_castle)/if active.king_side_castle \&\& (source_square_shift == (A1 - d_castle)/"
+"ctor-opp-lost-king-not-else|FAIL|$BOARD|s/        } else if passive.king_side_castle \&\& target_square_shift == (H8 + d_castle) {/        } else if passive.king_side_castle \&\& target_square_shift == (A8 + d_castle) {/"
+"ctor-prev-ep-stored-as-next|FAIL|$BOARD|s/mv.set_previous_en_passant_square(self.en_passant_square_shift);/mv.set_next_en_passant_square(self.en_passant_square_shift);/"
+"ctor-attacked-piece-of-active|FAIL|$BOARD|s/let piece_attacked = passive.get_piece_const_by_square_shift(attack_square_shift);/let piece_attacked = active.get_piece_const_by_square_shift(attack_square_shift);/"
+"ctor-quiet-filter-ignores-promotion|FAIL|$BOARD|s/if piece_attacked == NO_PIECE \&\& promote_to == NO_PIECE \&\& non_quiescent_only {/if piece_attacked == NO_PIECE \&\& non_quiescent_only {/"
+"ctor-mvvlva-shift-7|FAIL|$BOARD|s/(target_value << 8) - active_value/(target_value << 7) - active_value/"
+"ctor-piece-lookup-knight-before-pawn|FAIL|$BOARD|/const fn get_piece_const_by_square_mask/,/^    }/{s/if (self.pawns() \& square_mask) != 0 {/if (self.knights() \& square_mask) != 0 {/;s/^            PAWN$/            KNIGHT/}"
+"ctor-UNSUPPORTED-insert-front|FAIL|$BOARD|s/        result.push(mv);/        result.insert(0, mv);/"
+"ctor-HARMLESS-rename-local|PASS|$BOARD|s/d_castle/castle_rank_offset/g"
+"ctor-HARMLESS-offset-suffix|PASS|$BOARD|/let en_passant_offset = if is_en_passant_attack_mask == 0 {/,/};/s/^            8$/            8_u32/"
+# ---- bit scan + piece moves: mask_and_shift_from_lowest_one_bit, generate_attacks, sliding_moves, single_moves (module Generate)
+"scan-shift-plus-one|FAIL|board/src/lib.rs|s/    (1 << shift, shift)/    (1 << shift, shift + 1)/"
+"scan-leading-zeros|FAIL|board/src/lib.rs|/pub const fn mask_and_shift_from_lowest_one_bit/,/^}/s/u.trailing_zeros()/u.leading_zeros()/"
+"gen-attacks-castle-flag|FAIL|$BOARD|/fn generate_attacks(/,/^    }/s/CASTLE_MOVE_FALSE_MASK/CASTLE_MOVE_TRUE_MASK/"
+"gen-attacks-bit-not-popped|FAIL|$BOARD|/fn generate_attacks(/,/^    }/s/attack_occupancy \&= !target_square_mask;/attack_occupancy \&= target_square_mask;/"
+"gen-sliding-own-pieces-not-masked|FAIL|$BOARD|s/let attack_occupancy = magics.get_attacks(source_square_shift, full_occupancy) \& !active_occupancy;/let attack_occupancy = magics.get_attacks(source_square_shift, full_occupancy);/"
+"gen-sliding-blockers-active-only|FAIL|$BOARD|s/magics.get_attacks(source_square_shift, full_occupancy)/magics.get_attacks(source_square_shift, active_occupancy)/"
+"gen-single-own-pieces-not-masked|FAIL|$BOARD|s/let attack_occupancy = unsafe { nonmagics.get_attacks(source_square_shift) } \& !active_occupancy;/let attack_occupancy = unsafe { nonmagics.get_attacks(source_square_shift) };/"
+"gen-single-quiet-flag-dropped|FAIL|$BOARD|/fn single_moves(/,/^    }/s/self.generate_attacks(result, non_quiescent_only, source_square_shift, attack_occupancy, piece);/self.generate_attacks(result, false, source_square_shift, attack_occupancy, piece);/"
+"gen-HARMLESS-rename-local|PASS|$BOARD|s/source_square_shift/src_sq/g"
+# ---- pawn moves: generate_pawn_promotions, generate_pawn_attacks, pawn_attacks, pawn_moves
+"pawn-attacks-colors-swapped|FAIL|$BOARD|s/let pawn_attacks = if self.is_white_turn() { WHITE_PAWN_NONMAGICS } else { BLACK_PAWN_NONMAGICS };/let pawn_attacks = if self.is_white_turn() { BLACK_PAWN_NONMAGICS } else { WHITE_PAWN_NONMAGICS };/"
+"pawn-attacks-ep-on-last-ranks|FAIL|$BOARD|s/(passive_occupancy | ((1 << self.en_passant_square_shift) \& !(RANK_1_OCCUPANCY | RANK_8_OCCUPANCY)))/(passive_occupancy | (1 << self.en_passant_square_shift))/"
+"pawn-attacks-ep-flag-inverted|FAIL|$BOARD|s/if is_en_passant { EN_PASSANT_ATTACK_TRUE_MASK } else { EN_PASSANT_ATTACK_FALSE_MASK },/if is_en_passant { EN_PASSANT_ATTACK_FALSE_MASK } else { EN_PASSANT_ATTACK_TRUE_MASK },/"
+"pawn-attacks-promotion-only-rank-8|FAIL|$BOARD|s/if (attack_square_mask \& RANK_8_OCCUPANCY) != 0 || (attack_square_mask \& RANK_1_OCCUPANCY) != 0 {/if (attack_square_mask \& RANK_8_OCCUPANCY) != 0 {/"
+"pawn-promotions-order|FAIL|$BOARD|s/source_square_shift, target_square_shift, QUEEN);/source_square_shift, target_square_shift, XX);/;s/source_square_shift, target_square_shift, KNIGHT);/source_square_shift, target_square_shift, QUEEN);/;s/source_square_shift, target_square_shift, XX);/source_square_shift, target_square_shift, KNIGHT);/"
+"pawn-promotion-is-ep|FAIL|$BOARD|/fn generate_pawn_promotion(/,/^    }/s/EN_PASSANT_ATTACK_FALSE_MASK/EN_PASSANT_ATTACK_TRUE_MASK/"
+"pawn-moves-single-step-16|FAIL|$BOARD|s/(source_square_mask >> 8, RANK_8_OCCUPANCY)/(source_square_mask >> 16, RANK_8_OCCUPANCY)/"
+"pawn-moves-double-from-wrong-rank|FAIL|$BOARD|s/(single_move_target_mask >> 8, RANK_2_OCCUPANCY)/(single_move_target_mask >> 8, RANK_7_OCCUPANCY)/"
+"pawn-moves-double-no-ep-square|FAIL|$BOARD|s/^                            single_move_target_shift,$/                            NO_SQUARE,/"
+"pawn-moves-double-through-piece|FAIL|$BOARD|s/if (source_square_mask \& double_move_source_rank) != 0 \&\& (double_move_target_mask \& full_occupancy) == 0 {/if (source_square_mask \& double_move_source_rank) != 0 {/"
+"pawn-HARMLESS-rename-local|PASS|$BOARD|s/promote_rank/last_rank/g"
+# ---- castling: _is_occupancy_in_check, make_castle_move, castle_moves, the castling masks of constants.rs
+"castle-white-queen-side-to-d1|FAIL|$BOARD|s/self.make_castle_move(result, E1, C1);/self.make_castle_move(result, E1, D1);/"
+"castle-black-check-color|FAIL|$BOARD|s/!Self::_is_occupancy_in_check(BLACK, \&self.white, full_occupancy, BLACK_KING_SIDE_CASTLE_CHECK_OCCUPANCY)/!Self::_is_occupancy_in_check(WHITE, \&self.white, full_occupancy, BLACK_KING_SIDE_CASTLE_CHECK_OCCUPANCY)/"
+"castle-no-attack-test|FAIL|$BOARD|s/\&\& !Self::_is_occupancy_in_check(WHITE, \&self.black, full_occupancy, WHITE_QUEEN_SIDE_CASTLE_CHECK_OCCUPANCY) {/\&\& true {/"
+"castle-king-side-needs-queen-right|FAIL|$BOARD|s/            if self.white.king_side_castle$/            if self.white.queen_side_castle/"
+"castle-empty-mask-without-b1|FAIL|$CONSTS|s/WHITE_QUEEN_SIDE_CASTLE_EMPTY_OCCUPANCY: OccupancyBits = B1_MASK | C1_MASK | D1_MASK;/WHITE_QUEEN_SIDE_CASTLE_EMPTY_OCCUPANCY: OccupancyBits = C1_MASK | D1_MASK;/"
+"castle-occupancy-check-returns-false|FAIL|$BOARD|/fn _is_occupancy_in_check(/,/^    }/s/                return true;/                return false;/"
+"castle-move-not-flagged|FAIL|$BOARD|/fn make_castle_move(/,/^    }/s/CASTLE_MOVE_TRUE_MASK/CASTLE_MOVE_FALSE_MASK/"
+"castle-move-of-a-rook|FAIL|$BOARD|/fn make_castle_move(/,/^    }/s/^            KING,$/            ROOK,/"
+"castle-HARMLESS-parens|PASS|$BOARD|s/\&\& (full_occupancy \& WHITE_QUEEN_SIDE_CASTLE_EMPTY_OCCUPANCY) == 0$/\&\& ((full_occupancy \& WHITE_QUEEN_SIDE_CASTLE_EMPTY_OCCUPANCY) == 0)/"
+# ---- top-level generators (order of the generated moves matters)
+"top-kings-before-knights|FAIL|$BOARD|s/self.single_moves(result, false, active.knights(), active_occupancy, \&KNIGHT_NONMAGICS, KNIGHT);/self.single_moves(result, false, active.kings(), active_occupancy, \&KING_NONMAGICS, XXKING);/;s/self.single_moves(result, false, active.kings(), active_occupancy, \&KING_NONMAGICS, KING);/self.single_moves(result, false, active.knights(), active_occupancy, \&KNIGHT_NONMAGICS, KNIGHT);/;s/XXKING/KING/"
+"top-queen-diagonals-use-rook-table|FAIL|$BOARD|s/self.sliding_moves(result, false, active.queens(), active_occupancy, full_occupancy, \&BISHOP_MAGICS, QUEEN);/self.sliding_moves(result, false, active.queens(), active_occupancy, full_occupancy, \&ROOK_MAGICS, QUEEN);/"
+"top-no-castling|FAIL|$BOARD|s/        self.castle_moves(result, full_occupancy);/        let _unused = full_occupancy;/"
+"top-nq-quiet-pawn-pushes|FAIL|$BOARD|s/self.pawn_moves(result, true, active.pawns(), full_occupancy);/self.pawn_moves(result, false, active.pawns(), full_occupancy);/"
+"top-nq-quiet-rook-moves|FAIL|$BOARD|s/self.sliding_moves(result, true, active.rooks(), active_occupancy, full_occupancy, \&ROOK_MAGICS, ROOK);/self.sliding_moves(result, false, active.rooks(), active_occupancy, full_occupancy, \&ROOK_MAGICS, ROOK);/"
+"top-active-passive-swapped|FAIL|$BOARD|/const fn get_active_and_passive(&self)/,/^    }/s/            (&self.white, &self.black)/            (\&self.black, \&self.white)/"
+"top-HARMLESS-rename-local|PASS|$BOARD|s/passive_occupancy/enemy_occupancy/g"
+# ---- legality filter: generate_legal_moves, is_any_move_legal
+"legal-filter-from-quiescence-generator|FAIL|$BOARD|/pub fn generate_legal_moves(&mut self)/,/^    }/s/self.generate_pseudo_legal_moves()/self.generate_pseudo_legal_non_quiescent_moves()/"
+"legal-UNSUPPORTED-filter-negated|FAIL|$BOARD|s/.filter(|\&mv| self.is_move_legal(mv))/.filter(|\&mv| !self.is_move_legal(mv))/"
+"legal-HARMLESS-closure-variable|PASS|$BOARD|s/.filter(|\&mv| self.is_move_legal(mv))/.filter(|\&m| self.is_move_legal(m))/"
+"any-legal-returns-false|FAIL|$BOARD|/pub fn is_any_move_legal(&mut self, moves: &\[Move\]) -> bool/,/^    }/s/                return true;/                return false;/"
+"any-legal-default-true|FAIL|$BOARD|/pub fn is_any_move_legal(&mut self, moves: &\[Move\]) -> bool/,/^    }/s/^        false$/        true/"
+"any-legal-HARMLESS-rename|PASS|$BOARD|/pub fn is_any_move_legal(&mut self, moves: &\[Move\]) -> bool/,/^    }/s/\bmv\b/candidate/g"
 )
 
 ok=0; bad=0
